@@ -905,6 +905,9 @@ def check_spk_search(chk, F):
                 dai: lambda m_, a, c: (calls.append(deref(a[1])),
                                        Adt(DR, "Error", {"0": Term("derive-error", deref(a[1]))}) if deref(a[1]) == failing
                                        else Adt(DR, "Ok", {"0": ("definite", deref(a[1]))}))[1],
+                # (should the loop call the deprecated at_derivation_index directly, the same table applies)
+                adi: lambda m_, a, c: (calls.append(deref(a[1])),
+                                       err(Term("derive-error", deref(a[1]))) if deref(a[1]) == failing else ok(("definite", deref(a[1]))))[1],
                 dd_def: lambda m_, a, c: ("concrete", deref(a[0])[1]),
                 spk: lambda m_, a, c: "TARGET" if (deref(a[0])[1] in matching or (deref(a[0])[1] == "self" and 0 in matching)) else ("other", deref(a[0])[1]),
             }
